@@ -84,7 +84,7 @@ def ingest_rule(F, res, ingest_fn):
                     samples.append('%s bb%d line<-raw_line' % (fn.split('::')[-1], bb))
                 else:
                     res.violate('INGEST', 'fn=%s;field=line;ord=%d' % (fn, n), 'the stripped line is not derived from raw_line', where=F.bodies[fn]['mir']['span']['at'])
-    res.rule('C04.INGEST', n, 5, 'writes to raw_line / line inside the ingest functions %s' % sorted(f.split('::')[-1] for f in fns), discharged=ok, samples=samples)
+    res.rule('C04.INGEST', n, 3, 'writes to raw_line / line inside the ingest functions %s' % sorted(f.split('::')[-1] for f in fns), discharged=ok, samples=samples)
 
 
 def run(F, tier, res):
